@@ -289,21 +289,23 @@ pub fn gen_func(rng: &mut Rng, ids: &[u64], max_degree: usize) -> FuncSpec {
     if !rng.chance(1, 6) {
         return f;
     }
+    // the constant goes in as two constant monomials (c - 0.5 and 0.5), one in the middle and one at the end
     let as_poly = |terms: &[(u64, F)], constant: F| -> FuncSpec {
         let mut t: Vec<(Vec<u64>, F)> = terms.iter().map(|(i, c)| (vec![*i], *c)).collect();
-        t.insert(t.len() / 2, (vec![], constant));
+        t.insert(t.len() / 2, (vec![], F(constant.0 - 0.5)));
+        t.push((vec![], F(0.5)));
         FuncSpec::Polynomial { terms: t }
     };
     match f {
         FuncSpec::Constant(c) if max_degree >= 2 => {
-            if max_degree >= 3 && rng.chance(1, 2) {
+            if rng.chance(1, 2) {
                 as_poly(&[], c)
             } else {
                 FuncSpec::Quadratic { entries: vec![], linear: Some((vec![], c)) }
             }
         }
         FuncSpec::Linear { terms, constant } if max_degree >= 2 => {
-            if max_degree >= 3 && rng.chance(1, 2) {
+            if rng.chance(1, 2) {
                 as_poly(&terms, constant)
             } else {
                 FuncSpec::Quadratic { entries: vec![], linear: Some((terms, constant)) }
